@@ -200,6 +200,9 @@ class Bisector(IntegralDefuzzifier):
         """
         x = np.atleast_2d(Op.midpoints(minimum, maximum, self.resolution))
         y = np.atleast_2d(term.membership(x))
+        if y.shape[1] != x.shape[1]:
+            # a single sample point (resolution = 1): one membership value per row of the batch
+            y = y.T
         area = np.nancumsum(y, axis=1)
         # normalising the cumulative sum is not necessary, but it is convenient because it results in nan
         # when arrays are full of nans (ie, area = 0). Otherwise, result would be minimum + (maximum-minimum)/2
@@ -237,6 +240,9 @@ class Centroid(IntegralDefuzzifier):
         """
         x = np.atleast_2d(Op.midpoints(minimum, maximum, self.resolution))
         y = np.atleast_2d(term.membership(x))
+        if y.shape[1] != x.shape[1]:
+            # a single sample point (resolution = 1): one membership value per row of the batch
+            y = y.T
         z = ((x * y).sum(axis=1) / y.sum(axis=1)).squeeze()
         return z  # type: ignore
 
@@ -267,6 +273,9 @@ class LargestOfMaximum(IntegralDefuzzifier):
         """
         x = np.atleast_2d(Op.midpoints(minimum, maximum, self.resolution))
         y = np.atleast_2d(term.membership(x))
+        if y.shape[1] != x.shape[1]:
+            # a single sample point (resolution = 1): one membership value per row of the batch
+            y = y.T
         y_max = (y > 0) & (y == y.max(axis=1, keepdims=True))
         lom = np.where(y_max, x, np.nan)
         with warnings.catch_warnings():
@@ -301,6 +310,9 @@ class MeanOfMaximum(IntegralDefuzzifier):
         """
         x = np.atleast_2d(Op.midpoints(minimum, maximum, self.resolution))
         y = np.atleast_2d(term.membership(x))
+        if y.shape[1] != x.shape[1]:
+            # a single sample point (resolution = 1): one membership value per row of the batch
+            y = y.T
         y_max = (y > 0) & (y == y.max(axis=1, keepdims=True))
         mom = np.where(y_max, x, np.nan)
         with warnings.catch_warnings():
@@ -335,6 +347,9 @@ class SmallestOfMaximum(IntegralDefuzzifier):
         """
         x = np.atleast_2d(Op.midpoints(minimum, maximum, self.resolution))
         y = np.atleast_2d(term.membership(x))
+        if y.shape[1] != x.shape[1]:
+            # a single sample point (resolution = 1): one membership value per row of the batch
+            y = y.T
         y_max = (y > 0) & (y == y.max(axis=1, keepdims=True))
         som = np.where(y_max, x, np.nan)
         with warnings.catch_warnings():
